@@ -154,6 +154,9 @@ fn verify_link_signature_thresholds_step(
         // authorized by checking whether it's included in the layout.
         // Only good links are stored, to verify thresholds.
         // The sign key of the link is not authorized in the layout
+        if !step.pub_keys.contains(signer_key_id) {
+            continue;
+        }
         if let Some(authorized_key) = pubkeys.get(signer_key_id) {
             let authorized_key = vec![authorized_key];
             if link_metablock.verify(1, authorized_key).is_ok() {
